@@ -73,7 +73,9 @@ impl Gen {
         s
     }
     fn docs(&mut self) -> String {
-        match self.r.below(8) { 0 => "/// a doc comment\n".into(), 1 => "/** block doc */\n".into(), 2 => "/// first\n/// second\n".into(), _ => String::new() }
+        match self.r.below(12) { 0 => "/// a doc comment\n".into(), 1 => "/** block doc */\n".into(), 2 => "/// first\n/// second\n".into(),
+            // empty comments and blank lines inside comments are part of the text
+            3 => "///\n".into(), 4 => "/** a\n\n   b */\n".into(), 5 => "/***/\n".into(), 6 => "/// x\n///\n///   \n/// y\n".into(), 7 => "/**\n * star\n *\n */\n".into(), _ => String::new() }
     }
     fn type_decl(&mut self) -> String {
         let d = self.docs();
@@ -176,7 +178,7 @@ fn strip(v: &mut Value) {
             m.remove("span");
             // doc comments: compare the text, not how it is split into lines / comments
             if let Some(Value::Array(docs)) = m.get_mut("docs") {
-                let text: Vec<String> = docs.iter().flat_map(|d| d.get("comment").and_then(|c| c.as_str()).unwrap_or("").lines().map(|l| l.trim().to_string()).collect::<Vec<_>>()).filter(|l| !l.is_empty()).collect();
+                let text: Vec<String> = docs.iter().flat_map(|d| d.get("comment").and_then(|c| c.as_str()).unwrap_or("").lines().map(|l| l.trim().to_string()).chain(d.get("comment").and_then(|c| c.as_str()).filter(|c| c.is_empty()).map(|_| String::new())).collect::<Vec<_>>()).collect();
                 *docs = vec![Value::String(text.join("\n"))];
             }
             for (_, x) in m.iter_mut() { strip(x); }
